@@ -4,7 +4,7 @@ from gen import *
 import vlib, elfgen, hashgen, filegen
 
 LEVEL = "proof"
-SHARD_TIMEOUT = 40
+SHARD_TIMEOUT = 15
 RULE = ("the union of the case generators of every other slice-parser property (integers, 17 structures, tables, string tables, "
         "notes, hash tables well-formed and corrupted, version iterators and tables, whole files with structured corruption) "
         "plus arguments drawn from {0, 1, len-1, len, len+1, 2^31, 2^32-1, 2^63, 2^64-1}: GNU hash headers with nshift in "
